@@ -1,36 +1,58 @@
-import OntVerif.Model.KV
+import OntVerif.Model.KVLive
 /-! Line driver for C04: `L op;op;…` on a `CacheDB` over an `OverlayDB` over a memory LevelDB store.
 Ops: `s:k:v` store.Put (pre-population) · `p:k:v` `d:k` `g:k` `i:prefix:n` `c` `r` on the cache (keys without the
 ST_STORAGE byte) · `bp:k:v` `bd:k` `bg:k` `bi:prefix:n` `bc` `bk` `br` on the overlay (raw keys). `n` = number of
 elements taken before the iterator is released (`a` = drained).
-Deferred iterators: `io:id:prefix` / `bo:id:prefix` = NewIterator on the cache / overlay, kept open under `id` while other
-ops run; `in:id:n` = First/Next for `n` elements, then Release. The in-memory layers are walked when `First()` runs (the
-skip-list iterator seeks lazily, the MemDB objects are reset in place), the LevelDB iterator reads the snapshot taken at
-`NewIterator`: an open iterator = prefix captured at creation + store snapshot. -/
+Iterator objects: `io:id:prefix` / `bo:id:prefix` = NewIterator on the cache / overlay, kept open under `id` while other
+ops run; `if:id` = First(), `ix:id` = Next() (one call, result printed); `in:id:n` = First(), up to `n` elements, Release.
+The object is `Model/KVLive.lean`: the LevelDB side reads the snapshot taken at creation, the two memdb sides are live
+cursors evaluated against the memdbs at call time. A `Reset` of a memdb (`c` `r` `bc` `br`) invalidates the node indices
+and cached slices of a positioned iterator on it: such an iterator is `poisoned` and not used again.
+The whole line is run once per variant (tree as shipped / repaired `first()` that clears the end flags); where the two
+outputs differ both are printed (`shipped ## sound`). -/
 namespace OntVerif.Driver.C04
-open OntVerif.Util OntVerif.Model.KV
+open OntVerif.Util OntVerif.Model.KV OntVerif.Model.KVLive
 
 def showKVs (l : List KV) : String :=
   if l.isEmpty then "-" else String.intercalate "," (l.map fun e => s!"{hexW e.1}={hexW e.2}")
 
 def parseN (s : String) : Option Nat := if s == "a" then some 1000000 else s.toNat?
 
-/-- an open iterator: cache level?, prefix, store snapshot -/
+inductive Obj
+  | cache (j : CacheLive)
+  | overlay (j : OvLive)
+
+def Obj.first (v : Variant) (c : Cache) : Obj → Bool × Obj
+  | .cache j => let r := (cacheLiveOpsV v c.mem c.backend.mem).first j; (r.1, .cache r.2)
+  | .overlay j => let r := (ovLiveOpsV v c.backend.mem).first j; (r.1, .overlay r.2)
+
+def Obj.next (v : Variant) (c : Cache) : Obj → Bool × Obj
+  | .cache j => let r := (cacheLiveOpsV v c.mem c.backend.mem).next j; (r.1, .cache r.2)
+  | .overlay j => let r := (ovLiveOpsV v c.backend.mem).next j; (r.1, .overlay r.2)
+
+def Obj.kv : Obj → KV
+  | .cache j => (j.key.drop 1, j.value)
+  | .overlay j => (j.key, j.value)
+
+def Obj.take (v : Variant) (c : Cache) (n : Nat) : Obj → List KV
+  | .cache j => OntVerif.Model.KV.drain (cacheLiveOpsV v c.mem c.backend.mem) true n ((cacheLiveOpsV v c.mem c.backend.mem).first j)
+  | .overlay j => OntVerif.Model.KV.drain (ovLiveOpsV v c.backend.mem) false n ((ovLiveOpsV v c.backend.mem).first j)
+
 structure OpenIt where
   id : String
-  cacheLevel : Bool
-  pfx : Bytes
-  snap : Store
+  o : Obj
+  started : Bool := false
+  poisoned : Bool := false
 
 structure St where
+  v : Variant
   c : Cache
   its : List OpenIt := []
 
-def drainOpen (c : Cache) (it : OpenIt) (n : Nat) : List KV :=
-  let c' : Cache := { c with backend := { c.backend with store := it.snap } }
-  if it.cacheLevel then c'.iterate it.pfx n else c'.backend.iterate it.pfx n
+def showStep (tag : String) (r : Bool × Obj) : String :=
+  if r.1 then let e := r.2.kv; s!"{tag}=1,{hexW e.1}={hexW e.2}" else s!"{tag}=0"
 
-/-- one op: new state and an optional observation -/
+/-- one op on the databases: new state and an optional observation -/
 def stepOp (c : Cache) (s : String) : Option (Cache × Option String) :=
   match s.splitOn ":" with
   | ["s", k, v] => do
@@ -72,20 +94,59 @@ def stepOp (c : Cache) (s : String) : Option (Cache × Option String) :=
   | ["br"] => some (c.step .breset, none)
   | _ => none
 
+def isCacheObj : Obj → Bool
+  | .cache _ => true
+  | .overlay _ => false
+
+/-- which positioned iterators a `Reset` of the transaction memdb (`tx`) / block memdb invalidates -/
+def poison (tx blk : Bool) (its : List OpenIt) : List OpenIt :=
+  its.map fun it => if it.started && ((tx && isCacheObj it.o) || blk) then { it with poisoned := true } else it
+
 def stepSt (st : St) (s : String) : Option (St × Option String) :=
   match s.splitOn ":" with
   | ["io", id, p] => do
     let p ← unhex p
-    some ({ st with its := ⟨id, true, p, st.c.backend.store⟩ :: st.its.filter (·.id != id) }, none)
+    let o := Obj.cache (openCacheIter st.c p)
+    some ({ st with its := ⟨id, o, false, false⟩ :: st.its.filter (·.id != id) }, none)
   | ["bo", id, p] => do
     let p ← unhex p
-    some ({ st with its := ⟨id, false, p, st.c.backend.store⟩ :: st.its.filter (·.id != id) }, none)
+    let o := Obj.overlay (openOverlayIter st.c.backend p)
+    some ({ st with its := ⟨id, o, false, false⟩ :: st.its.filter (·.id != id) }, none)
   | ["in", id, n] => do
     let n ← parseN n
     match st.its.find? (·.id == id) with
     | none => some (st, some "i=none")
-    | some it => some ({ st with its := st.its.filter (·.id != id) }, some s!"i={showKVs (drainOpen st.c it n)}")
-  | _ => (stepOp st.c s).map fun (c', o) => ({ st with c := c' }, o)
+    | some it =>
+      let st' := { st with its := st.its.filter (·.id != id) }
+      if it.poisoned then some (st', some "i=poisoned")
+      else some (st', some ("i=" ++ showKVs (it.o.take st.v st.c n)))
+  | ["if", id] =>
+    match st.its.find? (·.id == id) with
+    | none => some (st, some "f=none")
+    | some it =>
+      if it.poisoned then some (st, some "f=poisoned")
+      else
+        let r := it.o.first st.v st.c
+        let it' := { it with o := r.2, started := true }
+        some ({ st with its := it' :: st.its.filter (·.id != id) }, some (showStep "f" r))
+  | ["ix", id] =>
+    match st.its.find? (·.id == id) with
+    | none => some (st, some "n=none")
+    | some it =>
+      if it.poisoned then some (st, some "n=poisoned")
+      else
+        let r := it.o.next st.v st.c
+        let it' := { it with o := r.2, started := true }
+        some ({ st with its := it' :: st.its.filter (·.id != id) }, some (showStep "n" r))
+  | _ =>
+    (stepOp st.c s).map fun (c', o) =>
+      let its := match s with
+        | "c" => poison true false st.its
+        | "r" => poison true false st.its
+        | "bc" => poison false true st.its
+        | "br" => poison false true st.its
+        | _ => st.its
+      ({ st with c := c', its := its }, o)
 
 def runOps (st : St) : List String → List String → Option (Cache × List String)
   | [], acc => some (st.c, acc.reverse)
@@ -95,14 +156,19 @@ def runOps (st : St) : List String → List String → Option (Cache × List Str
     | some (st', none) => runOps st' r acc
     | some (st', some out) => runOps st' r (out :: acc)
 
+def runLine (v : Variant) (ops : String) : String :=
+  match runOps { v := v, c := ⟨[], ⟨[], []⟩⟩ } (ops.splitOn ";") [] with
+  | none => "bad-op"
+  | some (c, outs) =>
+    let fin := s!"B={showKVs c.backend.mem} P={showKVs c.backend.store} VB={showKVs (c.backend.iterate [] 1000000)} VT={showKVs (c.iterate [] 1000000)}"
+    String.intercalate " | " (outs ++ [fin])
+
 def handle (line : String) : String :=
   match fields line with
   | ["L", ops] =>
-    match runOps { c := ⟨[], ⟨[], []⟩⟩ } (ops.splitOn ";") [] with
-    | none => "bad-op"
-    | some (c, outs) =>
-      let fin := s!"B={showKVs c.backend.mem} P={showKVs c.backend.store} VB={showKVs (c.backend.iterate [] 1000000)} VT={showKVs (c.iterate [] 1000000)}"
-      String.intercalate " | " (outs ++ [fin])
+    let a := runLine .asShipped ops
+    let s := runLine .sound ops
+    if a == s then a else s!"{a} ## {s}"
   | _ => "bad-op"
 
 end OntVerif.Driver.C04
